@@ -37,7 +37,7 @@ def configs(tier, seed):
             m = (3 if d == 1 else 2) + (2 if q and d == 1 else 0) - (1 if arity(kind, d) >= 4 and not q else 0) + (0)
             out.append({"name": "sched-%s-d%d-m%d" % (kind, d, m), "mode": "sched", "kind": kind, "d": d, "m": m, "part": kind, "cost": 3 ** m})
     for c in c01.configs(tier, seed):
-        if c.get("twin") or "params" in c and c["algo"] not in ("StoSOO", "SOO", "HCT"):
+        if c.get("twin") or ("params" in c and c["algo"] not in ("StoSOO", "SOO", "HCT") and not c.get("prefix")):
             continue
         c = dict(c, name="algo-" + c["name"], mode="algo")
         out.append(c)
